@@ -66,13 +66,14 @@ type SiteStat struct {
 
 // Sim is one simulated execution.
 type Sim struct {
-	Mode     OrderMode
-	AdvSite  int32 // for OrderAdvSite: the site that is perturbed
-	AdvStyle int   // 0 reverse, 1 rotate, 2 uniform
-	AdvPick  bool  // choose AdvSite lazily: the AdvNth distinct range site met
-	AdvNth   int
-	seenSite map[int32]bool
-	pools    map[*sync.Pool][]poolItem // simulated sync.Pool contents, per execution
+	Mode       OrderMode
+	AdvSite    int32 // for OrderAdvSite: the site that is perturbed
+	AdvStyle   int   // 0 reverse, 1 rotate, 2 uniform
+	AdvPick    bool  // choose AdvSite lazily: the AdvNth distinct range site met
+	AdvNth     int
+	seenSite   map[int32]bool
+	GrowRounds int                       // map iterations that met entries created while they ran
+	pools      map[*sync.Pool][]poolItem // simulated sync.Pool contents, per execution
 
 	// Lenient replay (used only while shrinking a schedule): when the trace
 	// does not fit the run any more, the rest of the run uses canonical order.
@@ -490,7 +491,54 @@ func Range(m interface{}, site int32) *Iter {
 		keys = out
 	}
 	it.keys = keys
+	it.grow = func(it *Iter) bool { return s.growIter(it, site) }
 	return it
+}
+
+// growIter looks for entries created since the iteration started (or since the last
+// look). Go leaves open whether such entries are produced; one seeded, recorded coin
+// per round of growth decides for all of them.
+func (s *Sim) growIter(it *Iter, site int32) bool {
+	n := it.m.Len()
+	if n == 0 {
+		return false
+	}
+	live := 0
+	for _, k := range it.keys {
+		if it.m.MapIndex(k).IsValid() {
+			live++
+		}
+	}
+	if live == n {
+		return false // nothing was created (the common case: no allocation)
+	}
+	seen := make(map[string]bool, len(it.keys))
+	for _, k := range it.keys {
+		seen[sortKey(k)] = true
+	}
+	var fresh []reflect.Value
+	var sk []string
+	for _, k := range it.m.MapKeys() {
+		if x := sortKey(k); !seen[x] {
+			fresh = append(fresh, k)
+			sk = append(sk, x)
+		}
+	}
+	if len(fresh) == 0 {
+		return false
+	}
+	s.GrowRounds++
+	if s.Intn(2, site) == 0 {
+		it.grow = nil // skipped, for good
+		return false
+	}
+	ks := &keySorter{keys: fresh, sk: sk}
+	sort.Sort(ks)
+	p := s.perm(site, len(fresh))
+	for _, j := range p {
+		it.keys = append(it.keys, ks.keys[j])
+	}
+	return true
 }
 
 func exitFn() {
